@@ -131,7 +131,7 @@ class Pruner:
     """drops alternatives whose guard is unsatisfiable under the constraints collected so far (incremental SAT).
     Needed because the merged state applies every operation to every alternative, creating values no schedule can produce."""
     def __init__(s):
-        s.S = None; s.nd = 0; s.na = 0; s.calls = 0; s.dropped = 0; s.time = 0.0; s.assumes = None; s.enabled = True; s.budget = 60.0
+        s.S = None; s.nd = 0; s.na = 0; s.calls = 0; s.dropped = 0; s.time = 0.0; s.assumes = None; s.enabled = True; s.budget = 60.0; s.at = PRUNE_AT
     def reset(s, assumes):
         s.S = z3.SolverFor('QF_FD'); s.S.set('timeout', 5000); s.nd = 0; s.na = 0; s.assumes = assumes; s.calls = 0; s.dropped = 0; s.time = 0.0
     def sat(s, g):
@@ -172,7 +172,7 @@ def mk_gv(alts, w):
         if g is False: continue
         k = _vkey(v); o = d.get(k)
         d[k] = (gor(o[0], g), v) if o is not None else (g, v)
-    if len(d) > PRUNE_AT: d = pruner.prune(d)
+    if len(d) > pruner.at: d = pruner.prune(d)
     if len(d) == 1: return next(iter(d.values()))[1]
     if not d: return 0
     return GV([(name(g), v) for g, v in d.values()], w)
